@@ -139,6 +139,8 @@ type Loaded struct {
 	Blocks []*Block
 	ByFn   map[*ssa.Function]*Block
 	RepoDir string
+	Overlay map[string][]byte
+	ByPath  map[string]*packages.Package
 }
 
 // rewriteClause turns the clause expression language into Go.
@@ -933,7 +935,8 @@ func Load(repo string, patterns []string) (*Loaded, error) {
 
 	prog, spkgs := ssautil.AllPackages(pkgs, ssa.GlobalDebug|ssa.InstantiateGenerics)
 	prog.Build()
-	ld := &Loaded{Fset: cfg.Fset, Pkgs: pkgs, Prog: prog, SSA: map[string]*ssa.Package{}, Blocks: all, ByFn: map[*ssa.Function]*Block{}, RepoDir: repo}
+	ld := &Loaded{Fset: cfg.Fset, Pkgs: pkgs, Prog: prog, SSA: map[string]*ssa.Package{}, Blocks: all, ByFn: map[*ssa.Function]*Block{}, RepoDir: repo, Overlay: overlay, ByPath: map[string]*packages.Package{}}
+	packages.Visit(pkgs, nil, func(p *packages.Package) { ld.ByPath[p.PkgPath] = p })
 	if cfg.Fset == nil && len(pkgs) > 0 {
 		ld.Fset = pkgs[0].Fset
 	}
